@@ -343,7 +343,9 @@ def case_task(wid, seed, params):
                 return st2 != 'ok' and case_signature(st2, info2) == _sig
             best = log
             try:
-                best, used = shrink(log, still, budget=params.get('shrink_budget', 60))
+                if 'timeout' in sig:
+                    raise RuntimeError('no shrinking for hang-guard hits (each evaluation costs the full guard time)')
+                best, used = shrink(log, still, budget=params.get('shrink_budget', 30))
             except Exception:
                 pass
             c2 = Chooser(replay=best)
@@ -356,10 +358,21 @@ def case_task(wid, seed, params):
                 iso = isolate(m2, s2, info2, ccname, opts2, sig)
                 if iso is not None:
                     m2, s2, st2, info2 = iso
+            try:
+                if 'timeout' in sig:
+                    raise RuntimeError('no reduction for hang-guard hits')
+                red = structural_reduce(m2, s2, st2, info2, ccname, opts2, sig, meta2.get('ninst', 2),
+                                        params.get('reduce_budget', 100))
+                if red is not None:
+                    m2, s2, st2, info2 = red
+            except Exception:
+                pass
             res['violations'].append(case_violation(m2, s2, ccname, st2, info2, opts2))
             if len(res['violations']) >= 3:
                 break
     res['extra'] = dict(res['extra'])
+    res['excluded'] = gen.EXCLUDED['snan_immediate']
+    gen.EXCLUDED['snan_immediate'] = 0
     return res
 
 
@@ -394,6 +407,28 @@ def isolate(m, script, info, ccname, opts, sig):
     return None
 
 
+def structural_reduce(m, script, st, info, ccname, opts, sig, ninst, budget):
+    from . import reduce as _reduce
+    # 1. cut the script down to the set-up steps plus the failing call
+    if st in ('mismatch', 'crash'):
+        model, actual, mm = info['model'], info['actual'], info['mismatch']
+        op, exp, act = describe_mismatch(model, actual, mm)
+        if op is not None and op[0] == 'call':
+            s2 = [o for o in model_script_prefix(model, mm) if o[0] != 'call'] + [op]
+            st2, info2 = run_case(m, s2, ccname, opts, ninst=ninst)
+            if st2 != 'ok' and case_signature(st2, info2) == sig:
+                script, st, info = s2, st2, info2
+
+    def still(cand):
+        st3, info3 = run_case(cand, script, ccname, opts, ninst=ninst)
+        return st3 != 'ok' and case_signature(st3, info3) == sig
+    best, used = _reduce.reduce_module(m, still, budget=budget)
+    st4, info4 = run_case(best, script, ccname, opts, ninst=ninst)
+    if st4 != 'ok' and case_signature(st4, info4) == sig:
+        return best, script, st4, info4
+    return None
+
+
 MAKERS = {}
 
 
@@ -423,3 +458,15 @@ def hazards_nontrivial(m, script, model, meta):
             body = m.funcs[fidx - nimp].body if fidx >= nimp else None
             out.append((hx((repr(body), tuple(op[3]))), classes))
     return out
+
+
+def standard_run(ID, LEVEL, RULE, ASSUME, jobs, task, replay, tier, seed, extra_cov=None):
+    """corpus replay tier, pool run, known findings, evidence, exit code"""
+    from . import runner
+    t0 = time.time()
+    res = runner.Result()
+    res.merge(runner.corpus_violations(ID, replay))
+    for d in runner.run_pool(task, seed, jobs):
+        res.merge(d)
+    return runner.finish(ID, tier, seed, LEVEL, res, RULE, ASSUME, t0, replay,
+                         known_probe_fn=runner.probe_with(replay), extra_cov=extra_cov)
